@@ -919,11 +919,12 @@ impl<'a> Run<'a> {
       }
       (Op::Generate { .. }, Err(e)) => {
         let undo = matches!(e, JwkStorageDocumentError::UndoOperationFailed { .. });
-        if post_model.canonical() != pre_model.canonical() {
+        if post_model != pre_model {
+          let what = if post_model.canonical() == pre_model.canonical() { "document-reordered" } else { "document-changed" };
           ctx::violation(
             prop,
             "C09.err_state_unchanged",
-            format!("{sig_base}/document-changed"),
+            format!("{sig_base}/{what}"),
             format!("generate_method failed ({}) but the document changed: {}", err_kind(e), post_model.diff(&pre_model)),
           );
         }
@@ -1027,7 +1028,7 @@ impl<'a> Run<'a> {
             );
           }
         } else {
-          if post_model.canonical() != pre_model.canonical() {
+          if post_model != pre_model {
             // classify what was lost
             let lost_refs = (0..5).any(|r| {
               pre_model.rel[r].iter().any(|e| matches!(e, MRef::Refer(s) if s == id))
@@ -1038,6 +1039,9 @@ impl<'a> Run<'a> {
               "method-lost"
             } else if lost_refs {
               "references-lost"
+            } else if post_model.canonical() == pre_model.canonical() {
+              // same entries, different positions: observable through serialisation, equality and first-match queries
+              "document-reordered"
             } else {
               "document-changed"
             };
@@ -1069,8 +1073,7 @@ impl<'a> Run<'a> {
     }
     // C04: storage-backed operations are members of the mutation history as well
     if result.is_err() && !matches!(result, Err(JwkStorageDocumentError::UndoOperationFailed { .. })) {
-      let post_json = post_model.canonical();
-      if post_json != pre_model.canonical() {
+      if post_model != pre_model {
         ctx::violation(
           "C04",
           "C04.refused_leaves_unchanged",
@@ -1198,7 +1201,7 @@ impl Engine for StorEngine {
   fn assumptions(&self, p: &str) -> Vec<String> {
     let mut v = vec![
       "storage failures are clean (an error is returned and the store is not altered), as the storage traits require; dirty failures are not injected".to_owned(),
-      "documents are compared order-insensitively inside collections (the statement speaks of methods, scopes and relationship references); IotaDocument metadata timestamps are not compared".to_owned(),
+      "after an error (other than a reported failed undo) the document must equal its pre-state exactly, including the order of entries ('observably unchanged'); after success only the set of entries is compared; IotaDocument metadata timestamps are not compared".to_owned(),
     ];
     if p == "C04" {
       v.push("fragment-only queries are judged exactly only when the fragment is unambiguous among the ids of the document; otherwise any candidate is admitted (documented 'unexpected behaviour' for ids under foreign DIDs)".to_owned());
@@ -1219,6 +1222,7 @@ impl Engine for StorEngine {
       "probe.start.deserialised",
       "probe.start.built",
       "probe.start.empty",
+      "probe.start.invalid_refused",
       "probe.doc.iota",
       "probe.doc.core",
     ]
@@ -1280,8 +1284,45 @@ impl Engine for StorEngine {
         0 => ModelDoc::empty(&own),
         _ => gen_start_model(&own, &foreign, &frags),
       };
-      let breaches = model.id_invariant_breaches();
-      debug_assert!(breaches.is_empty(), "generator produced an invalid start model: {breaches:?}");
+      // One start document in eight deliberately violates one id constraint (a service id equal to a method id, a
+      // reference aliasing an embedded method, two embedded methods with one id). The library must refuse it; if it
+      // accepts it, the start-state check below reports the breach ("any DID document the library accepts ... never
+      // contains ...").
+      let mut model = model;
+      let mut corrupted = false;
+      if start != 0 && ctx::choose(8) == 0 {
+        let ids: Vec<String> = model
+          .vm
+          .iter()
+          .map(|v| vid(v).to_owned())
+          .chain(model.rel.iter().flat_map(|r| r.iter().filter_map(|e| match e {
+            MRef::Embed(v) => Some(vid(v).to_owned()),
+            _ => None,
+          })))
+          .collect();
+        if !ids.is_empty() {
+          let id = ids[ctx::choose(ids.len())].clone();
+          let (did, frag) = id.split_once('#').unwrap_or((&own, "a"));
+          match ctx::choose(3) {
+            0 => model.services.push(harness_service(did, frag, 77)),
+            1 => {
+              // alias: a reference (in some relationship) to a method embedded in a relationship, or a second embed
+              let embedded_in_rel = model.rel.iter().any(|r| r.iter().any(|e| matches!(e, MRef::Embed(v) if vid(v) == id)));
+              let r = ctx::choose(5);
+              if embedded_in_rel {
+                model.rel[r].push(MRef::Refer(id.clone()));
+              } else {
+                model.rel[r].push(MRef::Embed(serde_json::to_value(harness_method(did, frag, 5)).unwrap()));
+              }
+            }
+            _ => model.vm.push(serde_json::to_value(harness_method(did, frag, 6)).unwrap()),
+          }
+          corrupted = !model.id_invariant_breaches().is_empty();
+          if corrupted {
+            ctx::stat("probe.start.invalid_offered");
+          }
+        }
+      }
       let core: Option<CoreDocument> = match start {
         0 => {
           ctx::stat("probe.start.empty");
@@ -1324,9 +1365,10 @@ impl Engine for StorEngine {
       let core = match core {
         Some(c) => c,
         None => {
-          // The library rejected a start document the generator believes valid: not a claim of the property
-          // ("any DID document the library accepts"), but counted so that a broken generator is noticed.
-          ctx::stat("probe.start.rejected_by_library");
+          // The library rejected the start document: correct for a deliberately invalid one; for one the generator
+          // believes valid it is not a claim of the property ("any DID document the library accepts"), but it is
+          // counted so that a broken generator is noticed.
+          ctx::stat(if corrupted { "probe.start.invalid_refused" } else { "probe.start.rejected_by_library" });
           CoreDocument::builder(Default::default())
             .id(CoreDID::parse(&own).unwrap())
             .build()
